@@ -1,7 +1,7 @@
 (* c15 model driver.  input: <D|R> <facts>\t<view of the real JSON (compact, UTF-8)>\t<hex of the pretty rendering of that view>
    (facts format: harness/src/bin/c15.rs).  output:
    <model's serialisation, UTF-8 | P;;>\t<1|0: the model's parser accepts the real view and re-serialises it to the
-   same code points>\t<model confidence bits of the bit flips, joined by ,>\t<1|0: wf_ok st>\t<1|0: real_conforms
+   same code points>\t<model confidence bits of the bit flips, joined by ,>\t<1|0|R: wf_ok st (R = wf_ok holds but the registers are not from the register file of the context kind: regs_ok)>\t<1|0: real_conforms
    on the code points of the real view>\t<1|0: real_widths width view>\t<hex of the UTF-8 bytes of the model's pretty
    rendering | P;;>\t<1|0: pretty_ok: the whitespace-tolerant parser of c15_pretty_parse accepts the real pretty text and
    yields the value of the real compact text> *)
@@ -162,6 +162,7 @@ let () =
             { fr_instr = instr; fr_module = md; fr_function = fn; fr_function_base = fb; fr_file = file;
               fr_line = ln; fr_trust = trust; fr_unloaded = unl; fr_inlines = inl }) in
           { th_id = id; th_name = name; th_last_error = lasterr; th_frames = frames }) in
+        expect "RK"; let ctx_kind = nz () in
         expect "REGS";
         let r = int_of_string (next ()) in
         let regs = List.init r (fun _ ->
@@ -197,7 +198,7 @@ let () =
          | Some c -> Buffer.add_string b (String.concat "," (List.map (fun f -> string_of_z (flip_confidence_bits f)) c.cr_flips))
          | None -> ());
         Buffer.add_char b '\t';
-        Buffer.add_string b (if wf_ok st then "1" else "0");
+        Buffer.add_string b (if wf_ok st then (if regs_ok ctx_kind st then "1" else "R") else "0");
         Buffer.add_char b '\t';
         Buffer.add_string b (if real_conforms real_cps then "1" else "0");
         Buffer.add_char b '\t';
